@@ -314,24 +314,22 @@ def run(eng, R):
                     notif = [n for n in g.stmt_nodes() if has_notify_self(n)]
                     ok = bool(sets) and bool(notif)
                     why = "does not set _stale and notify parents"
-                    second = False
                     if ok:
                         for n in sets + notif:
                             nf = common.conj_normal_form(common.guard_conditions(f.node, n.stmt))
                             if nf == {("stale", False), ("frozen", False)}:
                                 continue
-                            # a node that is already stale still tells parents that are not stale (a failed update under a Fallback leaves such a pair behind)
-                            extra = {a for a in nf if a not in (("stale", True), ("frozen", False))}
-                            if n in notif and ("stale", True) in nf and ("frozen", False) in nf and len(extra) == 1 and \
-                                    "any((not _p.stale for _p in self.iter_parents()))" in "".join(x for x, pol in extra if pol).replace("any(not ", "any((not ").replace("_parents()))", "_parents()))"):
-                                second = True
+                            if n in notif and ("stale", True) in nf:
+                                continue   # (forwarding from a node that is already stale: judged as a whole below)
+                            if n in sets and ("stale", False) in nf and isinstance(n.stmt.value, ast.Constant) and n.stmt.value.value is True and ("frozen", False) in nf:
                                 continue
                             ok = False
                             why = "%s is guarded by %s, expected {not stale, not frozen}" % (norm_stmt(n.stmt), sorted(nf))
                         if ok and cls.name == "NodeBase":
-                            R.ob("B4a", f.qualname + ":stale node, fresh parent", second, eng.where(f),
-                                 "%s returns early for every stale node: a node left stale by a failed update (its Fallback parent went on with an alternative) swallows the "
-                                 "notification when its input is repaired, and the Fallback keeps the old value" % f.qualname)
+                            from .c04_chain import stale_chain
+                            chain_ok, mech, chain_why = stale_chain(eng, p, NodeBase, f, notif)
+                            R.info["stale-chain mechanism"] = mech
+                            R.ob("B4a", f.qualname + ":stale node, fresh ancestor", chain_ok, eng.where(f), chain_why)
                         # value of the assignment
                         for n in sets:
                             if not (isinstance(n.stmt.value, ast.Constant) and n.stmt.value.value is True):
